@@ -2,6 +2,7 @@ import AlgoVerif.Proofs.C02Chain
 import AlgoVerif.Proofs.C02OA
 import AlgoVerif.Proofs.C02LinDel
 import AlgoVerif.Proofs.C03Sites
+import AlgoVerif.Proofs.C02Pool
 /-!
 # C03 — every hash-table operation terminates, whatever the delete/insert churn
 
@@ -124,6 +125,38 @@ theorem C03_double {K V σ : Type} [DecidableEq K] (hash : K → UInt64) (sh : S
           cg ≤ cover (st.sel b).kind (st.sel b).m ∧ cf ≤ cover (st.sel b).kind (st.sel b).m ∧
           cover (st.sel b).kind (st.sel b).m ≤ (st.sel b).m :=
   C03_openAddressing .dbl hash sh hsh eqVal opts hv g ops op
+
+/-! ## tables used together -/
+
+/-- a pool of tables (`Model/C02Pool.lean`: any number of tables, each of any of the four implementations with its own
+hash function, `eqVal` and valid options; operations on any of them, `Equal` between any two, sequences and
+traversals held on to): every history reaches a state, any further operation returns, and in the reached state the
+probe walk of every key stays within the bound of its table in EVERY table of the pool -/
+theorem C03_pool {K V σ : Type} [DecidableEq K] (sh : Shuffle σ) (hsh : ShufflePerm sh) (cfgs : List (Cfg K V))
+    (hv : ∀ c ∈ cfgs, Tab.ValidOpts c.ty c.opts) (g : σ) (ops : List (POp K V)) (op : POp K V) :
+    ∃ objs : List (Obj K V), Pool.new cfgs = .ok objs ∧
+      ∃ st r, Pool.reach sh ⟨objs, g, {}⟩ ops = some st ∧ Pool.step sh st op = .ok r ∧
+        ∀ o ∈ st.objs, Tab.ProbesBounded o.hash o.tab := by
+  obtain ⟨objs, hnew, hrel⟩ := Pool.init_rel (σ := σ) cfgs hv
+  obtain ⟨st, ss, hreach, hrel'⟩ := pool_reach hsh ops _ _ (hrel g)
+  obtain ⟨st', o, _, hstep, _⟩ := pool_step_sim hsh st ss hrel' op
+  exact ⟨objs, hnew, st, (st', o), hreach, hstep, fun o ho => Tab.probes_bounded o.hash o.tab (hrel'.inv o ho)⟩
+
+/-- the hypothesis is satisfiable and the reached pool is not trivial: two quadratic tables under a constant hash, one
+churned (16 cycles of put / delete of fresh keys: D3's history), one filled with 16 colliding keys (D26's), compared
+with `Equal` at the end; table 0 has re-hashed in place (m = 31), table 1 has grown (m = 67) -/
+example : (match (Pool.new [⟨.quadratic, fun _ => 5, fun a b => a == b, {}⟩, ⟨.quadratic, fun _ => 5, fun a b => a == b, {}⟩] :
+      Outcome (List (Obj Int Int))) with
+    | .ok objs =>
+      match Pool.reach (fun g n => (List.range n, g)) ⟨objs, (), {}⟩
+          (((List.range 16).flatMap fun i => [POp.put 0 (i : Int) 0, POp.delete 0 (i : Int)]) ++
+           ((List.range 16).map fun i => POp.put 1 (i : Int) 0) ++ [.equal 0 1, .equal 1 1]) with
+      | some st => st.objs.map fun o => match o.tab with
+          | .oa t => (t.m, t.n, t.u)
+          | _ => (0, 0, 0)
+      | none => []
+    | _ => []) = [(31, 0, 1), (67, 16, 16)] := by
+  decide
 
 /-! ## every constructor call site of /repo passes valid options -/
 
